@@ -464,6 +464,145 @@ Definition latest_target (f : nat) (ds : list (nat * option N)) : list N :=
 Definition in_flight (b : bstate) : list N :=
   flat_map (fun f => latest_target f (draws b)) (running (core b)).
 
+(* ---- Layer B in virtual time, for probe plans (hook run_probe_plan): every target is an
+   attempt that lasts delay(t) ticks and then fails with a pool error, so a fiber walks the
+   shared plan until it is empty and yields Some(Err(ConnectionPoolError)), or None if it was
+   handed nothing.  One poll of fiber f = one BDraw f (plus its BComplete when the plan is
+   empty).  Observed: the begin / end of every attempt, in order, with times. ---- *)
+
+Inductive event := EvBegin (t : N) (at_ : N) | EvEnd (t : N) (at_ : N).
+
+Record btstate := mkBT {
+  bb : bstate;
+  bnow : N;
+  bdeadline : N;
+  wake : list (nat * N);        (* fiber -> instant at which it can be polled with progress *)
+  btrace : list event;          (* latest first *)
+  bhist : list blabel           (* ghost: the Layer-B schedule so far, latest first *)
+}.
+
+Definition lookupN {A} (d : A) (k : N) (l : list (N * A)) : A :=
+  match find (fun e => (fst e =? k)%N) l with Some e => snd e | None => d end.
+Definition lookup_nat {A} (d : A) (k : nat) (l : list (nat * A)) : A :=
+  match find (fun e => fst e =? k) l with Some e => snd e | None => d end.
+
+Definition btinit (c : config) (interval : N) (targets : list (N * N)) : btstate :=
+  mkBT (binit c (map fst targets)) 0%N interval [(0, 0%N)] [] [].
+
+Definition bevent_times (t : btstate) : list N :=
+  (if speculative (bb t) then match sleep (core (bb t)) with Armed => [bdeadline t] | Fired => [] end
+   else [])
+  ++ map (fun f => lookup_nat 0%N f (wake t)) (running (core (bb t))).
+
+Inductive tlabel := TTimer | TFiber (f : nat).
+
+Definition bready (t : btstate) (tn : N) : list tlabel :=
+  (if speculative (bb t) then
+     match sleep (core (bb t)) with
+     | Armed => if (bdeadline t =? tn)%N then [TTimer] else []
+     | Fired => []
+     end
+   else [])
+  ++ map TFiber (filter (fun f => (lookup_nat 0%N f (wake t) =? tn)%N) (running (core (bb t)))).
+
+Definition btstep (interval : N) (targets : list (N * N)) (t : btstate) (l : tlabel) (tn : N)
+  : option btstate :=
+  match l with
+  | TTimer =>
+      match bstep (bb t) BTimer with
+      | None => None
+      | Some b1 =>
+          Some (mkBT b1 tn (tn + interval)%N
+                     (if started (core b1) =? started (core (bb t)) then wake t
+                      else (started (core (bb t)), tn) :: wake t)
+                     (btrace t) (BTimer :: bhist t))
+      end
+  | TFiber f =>
+      let ends := map (fun c => EvEnd c tn) (latest_target f (draws (bb t))) in
+      match bstep (bb t) (BDraw f) with
+      | None => None
+      | Some b1 =>
+          match plan (bb t) with
+          | x :: _ =>
+              Some (mkBT b1 tn (bdeadline t) ((f, (tn + lookupN 0%N x targets)%N) :: wake t)
+                         (EvBegin x tn :: ends ++ btrace t) (BDraw f :: bhist t))
+          | [] =>
+              let o := if drew_some f (draws (bb t)) then Some (Err ConnectionPoolError) else None in
+              match bstep b1 (BComplete f o) with
+              | None => None
+              | Some b2 =>
+                  Some (mkBT b2 tn (bdeadline t) (wake t) (ends ++ btrace t)
+                             (BComplete f o :: BDraw f :: bhist t))
+              end
+          end
+      end
+  end.
+
+Record bobs := mkBObs { bo_events : list event; bo_res : rres; bo_end : N }.
+
+Fixpoint bexplore (fuel : nat) (interval : N) (targets : list (N * N)) (t : btstate) : list bobs :=
+  match returned (core (bb t)) with
+  | Some r => [mkBObs (rev (btrace t)) r (bnow t)]
+  | None =>
+      match fuel with
+      | O => []
+      | S fuel' =>
+          match list_min (bevent_times t) with
+          | None => []
+          | Some tn =>
+              flat_map (fun l => match btstep interval targets t l tn with
+                                 | Some t' => bexplore fuel' interval targets t'
+                                 | None => []
+                                 end) (bready t tn)
+          end
+      end
+  end.
+
+Definition bfuel (c : config) (targets : list (N * N)) : nat :=
+  2 * List.length targets + 4 * (match gate c with Some max => max | None => 0 end) + 8.
+
+Definition btimed_runs (c : config) (interval : N) (targets : list (N * N)) : list bobs :=
+  bexplore (bfuel c targets) interval targets (btinit c interval targets).
+
+Definition event_eq_dec (a b : event) : {a = b} + {a <> b}.
+Proof. decide equality; apply N.eq_dec. Defined.
+Definition bobs_eq_dec (a b : bobs) : {a = b} + {a <> b}.
+Proof. decide equality; auto using N.eq_dec, rres_eq_dec, (list_eq_dec event_eq_dec). Defined.
+
+Definition baccept (c : config) (interval : N) (targets : list (N * N)) (o : bobs) : bool :=
+  existsb (fun m => if bobs_eq_dec o m then true else false) (btimed_runs c interval targets).
+
+(* The property on an observed trace, from the property text:
+   - no plan target is used twice: the attempts begin on the plan's targets, in plan order;
+   - never more attempts in flight than allowed: 1 if the gate is closed (not idempotent, or no
+     policy), 1 + max otherwise;  every end closes an open attempt on that target. *)
+Fixpoint begins (evs : list event) : list N :=
+  match evs with
+  | [] => []
+  | EvBegin t _ :: r => t :: begins r
+  | EvEnd _ _ :: r => begins r
+  end.
+Fixpoint remove1 (x : N) (l : list N) : option (list N) :=
+  match l with
+  | [] => None
+  | y :: r => if (x =? y)%N then Some r else option_map (cons y) (remove1 x r)
+  end.
+Fixpoint open_ok (bound : nat) (open : list N) (evs : list event) : bool :=
+  match evs with
+  | [] => true
+  | EvBegin t _ :: r => (S (List.length open) <=? bound) && open_ok bound (t :: open) r
+  | EvEnd t _ :: r => match remove1 t open with Some o' => open_ok bound o' r | None => false end
+  end.
+Fixpoint is_prefix (a b : list N) : bool :=
+  match a, b with
+  | [], _ => true
+  | x :: a', y :: b' => (x =? y)%N && is_prefix a' b'
+  | _ :: _, [] => false
+  end.
+Definition prop_trace (c : config) (targets : list (N * N)) (o : bobs) : bool :=
+  is_prefix (begins (bo_events o)) (map fst targets)
+  && open_ok (match gate c with Some max => 1 + max | None => 1 end) [] (bo_events o).
+
 (* ------------------------------------------------------------------------------------ *)
 (* Names of the error variants for the text protocol of the correspondence check          *)
 
